@@ -345,7 +345,7 @@ fn main() {
     let t0 = Instant::now();
     let mut n = 0u64;
     while t0.elapsed().as_secs_f64() < args.budget_s {
-        let case_seed = r.next_u64();
+        let Some(case_seed) = args.next_case(&mut r) else { break };
         run_scenario(&mut rep, case_seed);
         n += 1;
     }
